@@ -14,8 +14,12 @@ from . import typestate as ts
 
 
 class Variant:
-    def __init__(self, file, desc, source, expect, props, site=None, more=None):
+    def __init__(self, file, desc, source, expect, props, site=None, more=None, mode='any'):
         self.more = dict(more or {})      # further files changed by the same variant: file -> source
+        # 'any': a breaking edit must be reported by at least one of the listed properties (they share the engine that
+        #        owns the edited construct; which of them phrases a rule about it is not part of the expectation);
+        # 'all': every listed property must report it (kept seeded changes: the recorded detection must not regress)
+        self.mode = mode
         self.file = file
         self.desc = desc
         self.source = source
@@ -412,7 +416,7 @@ def gen_seeded(sources):
                 continue
             first = sorted(changed)[0]
             yield Variant(first, f'seeded change {sid} ({m.get("breaks_property")})', changed[first], 'violation', props,
-                          site=sid, more={f: t for f, t in changed.items() if f != first})
+                          site=sid, more={f: t for f, t in changed.items() if f != first}, mode='all')
         finally:
             shutil.rmtree(tmp, ignore_errors=True)
 
@@ -481,9 +485,10 @@ def all_variants(sources, only_props=None, rename_every=3):
     for g in gens:
         for v in g(sources):
             if only_props is not None:
-                v.props = [p for p in v.props if p in only_props]
-                if not v.props:
+                if not (set(v.props) & set(only_props)):
                     continue
+                if v.mode == 'all' or v.expect == 'silent':
+                    v.props = [p for p in v.props if p in only_props]
             try:
                 import warnings
                 with warnings.catch_warnings():
